@@ -10,6 +10,7 @@ B. Seeded random construction histories of multi-house object graphs (no FloScri
    names, and validated by TLC against RegistryTrace.tla, including complete reads of every registry.
 """
 import random
+import time
 from collections import deque
 from concurrent.futures import ThreadPoolExecutor
 
@@ -72,11 +73,17 @@ class RegAdapter:
         self.ParameterError = excepting.ParameterError
         self.CloneError = excepting.CloneError
         self.universe = universe          # None: names are reported as they are (traces)
+        try:
+            from ioflo.aid.consoling import getConsole
+            getConsole().reinit(verbosity=0)
+        except Exception:
+            pass
         self.cls = {"House": housing.House, "Store": storing.Store, "Tasker": tasking.Tasker, "Framer": framing.Framer,
                     "Logger": logging.Logger, "Log": logging.Log, "Frame": framing.Frame}
         self.regcls = {"house": housing.House, "store": storing.Store, "tasker": tasking.Tasker, "log": logging.Log,
                        "frame": framing.Frame}
         # a store for instances made outside any house; made before the slate is wiped so that it is in no registry
+        storing.Store.Clear()
         self.aux = storing.Store(name="aux")
         # every adapter stands for a fresh process: instance counters as after import (best effort, harmless if absent)
         for c in self.cls.values():
@@ -281,17 +288,15 @@ def stimulus(act):
 
 
 def walk(prop, g, make_adapter, max_len=150, max_divs=10):
-    """Execute every stimulus offered at every state of the graph on the real code.  Returns
-    (steps, stimuli_total, stimuli_done, outcome edges seen, [Divergence])."""
+    """Execute every stimulus offered at every state of the graph that the implementation can be driven to.
+    Returns dict(steps, stimuli, executed, visited, stimuli_at_visited, edges_seen, divs)."""
     stim = {}
     for u, es in g.out.items():
         d = stim.setdefault(u, {})
         for (lab, act, v) in es:
             d.setdefault(stimulus(act), []).append((lab, act, v))
-    todo = {u: set(d) for u, d in stim.items() if d}
-    total = sum(len(x) for x in todo.values())
-    # shortest-path tree from the initial state (to restart near unexplored territory)
     init = g.inits[0]
+    # breadth-first order from the initial state (restart towards the shallowest unexplored state)
     pred = {init: None}
     dq = deque([init])
     order = []
@@ -302,12 +307,15 @@ def walk(prop, g, make_adapter, max_len=150, max_divs=10):
             if v not in pred:
                 pred[v] = (u, stimulus(act))
                 dq.append(v)
-    todo = {u: s for u, s in todo.items() if u in pred}
+    todo = {u: set(d) for u, d in stim.items() if d and u in pred}
     total = sum(len(x) for x in todo.values())
-    divs, steps, seen = [], 0, set()
+    tries = {}          # target state -> failed attempts to reach it (the implementation chose another outcome)
+    divs, steps, seen, visited = [], 0, set(), {init}
 
-    def plan_local(u, limit=4000):
-        """stimuli leading from u to the nearest state with something left to do"""
+    def wanted(u):
+        return u in todo and tries.get(u, 0) < 2
+
+    def plan_local(u, limit=6000):
         prev = {u: None}
         q = deque([u])
         n = 0
@@ -317,63 +325,61 @@ def walk(prop, g, make_adapter, max_len=150, max_divs=10):
                 n += 1
                 if v not in prev:
                     prev[v] = (x, stimulus(act))
-                    if v in todo:
-                        path = []
+                    if wanted(v):
+                        path, t = [], v
                         while prev[v] is not None:
                             x2, s = prev[v]
-                            path.append((x2, s))
+                            path.append((x2, s, v))
                             v = x2
                         path.reverse()
-                        return path
+                        return t, path
                     q.append(v)
-        return None
+        return None, None
 
     def plan_root():
         for u in order:
-            if u in todo:
-                path = []
-                v = u
+            if wanted(u):
+                path, v = [], u
                 while pred[v] is not None:
                     x, s = pred[v]
-                    path.append((x, s))
+                    path.append((x, s, v))
                     v = x
                 path.reverse()
-                return path
-        return None
+                return u, path
+        return None, None
 
-    stale = 0
-    while todo and len(divs) < max_divs and stale < 3:
-        left = sum(len(x) for x in todo.values())
-        if steps:
-            stale = stale + 1 if left == last_left else 0
-        last_left = left
-        ad = make_adapter(g.states[init])
-        cur = init
+    while len(divs) < max_divs and any(wanted(u) for u in todo):
         done = [{"action": "Init", "state": g.states[init]}]
+        try:
+            ad = make_adapter(g.states[init])
+        except Exception as ex:
+            divs.append(Divergence(prop, "exception", "Init", replay.innermost_ioflo_frame(ex.__traceback__),
+                                   "%s: %s" % (type(ex).__name__, str(ex)[:200]), steps=done))
+            break
+        cur = init
         actual = ad.project()
         bad = replay._compare(g.states[init], actual, None)
         if bad:
             divs.append(Divergence(prop, "state-mismatch", "Init", bad[0], "expected %r got %r" % (bad[1], bad[2]), steps=done,
                                    expected=g.states[init], actual=actual))
             break
-        plan = plan_root() if cur not in todo else []
+        target, plan = (None, []) if wanted(cur) else plan_root()
         n_here = 0
         while n_here < max_len:
             if cur in todo:
                 s = min(todo[cur], key=repr)
-                plan = []
-            else:
-                if not plan or plan[0][0] != cur:
-                    plan = plan_local(cur)
-                    if not plan:
-                        break
-                s = plan[0][1]
-                plan = plan[1:]
-            cands = stim[cur][s]
-            if cur in todo:
+                target, plan, hop = None, [], None
                 todo[cur].discard(s)
                 if not todo[cur]:
                     del todo[cur]
+            else:
+                if not plan or plan[0][0] != cur:
+                    target, plan = plan_local(cur)
+                    if not plan:
+                        break
+                s, hop = plan[0][1], plan[0][2]
+                plan = plan[1:]
+            cands = stim[cur][s]
             steps += 1
             n_here += 1
             try:
@@ -403,13 +409,24 @@ def walk(prop, g, make_adapter, max_len=150, max_divs=10):
                 break
             done.append({"action": match[0], "state": g.states[match[2]]})
             seen.add((cur, match[0], match[2]))
+            if hop is not None and match[2] != hop and target is not None:
+                tries[target] = tries.get(target, 0) + 1      # the implementation went elsewhere: replan
+                plan = []
             cur = match[2]
-    return steps, total, total - sum(len(x) for x in todo.values()), len(seen), divs
+            visited.add(cur)
+    at_visited = sum(len(stim[u]) for u in visited if u in stim)
+    return {"steps": steps, "stimuli": total, "executed": total - sum(len(x) for x in todo.values()), "visited": len(visited),
+            "stimuli_at_visited": at_visited, "left_at_visited": sum(len(todo[u]) for u in visited if u in todo),
+            "edges_seen": len(seen), "divs": divs}
 
 
 # ------------------------------------------------------------------ binding B
 def _random_history(rng, nsteps):
-    ad = RegAdapter(None)
+    try:
+        ad = RegAdapter(None)
+    except Exception as ex:
+        return [{"ev": "EXCEPTION", "op": "Init", "where": replay.innermost_ioflo_frame(ex.__traceback__),
+                 "detail": "%s: %s" % (type(ex).__name__, str(ex)[:200])}]
     evs = [{"ev": "Init"}]
     pool = {"House": ["h1", "h2", "h3", "House1", "House2"], "Store": ["s1", "h1", "Store1", "Store2"],
             "Tasker": ["t1", "Tasker1", "Tasker2", "Framer1"], "Framer": ["f1", "f2", "Framer1", "Framer2", "Tasker1"],
@@ -462,7 +479,8 @@ def _random_history(rng, nsteps):
                     do("SwitchHouse", (h,), {"h": h})
             elif c < 0.20 and ad.framers:
                 o, f = rng.choice(sorted(ad.framers))
-                do("SwitchFramer", (o, f), {"o": o, "f": f})
+                if ("frame", (o, f)) in ad.spaces:
+                    do("SwitchFramer", (o, f), {"o": o, "f": f})
             elif c < 0.24:
                 k = rng.choice(KINDS)
                 do("Clear", (k,), {"k": k})
@@ -471,6 +489,7 @@ def _random_history(rng, nsteps):
             elif c < 0.32 and ad.framers:
                 h, f = rng.choice(sorted(ad.framers))
                 if h != "d" and h in ad.houses and h in ad.regcls["house"].Names and ("tasker", h) in ad.spaces \
+                        and ("frame", (h, f)) in ad.spaces \
                         and all((k, h) in ad.spaces for k in ("store", "log")):
                     n = rng.choice(pool["Framer"] + ["c1", "c2", "c3"])
                     if ad.current("frame") != (h, n):
@@ -517,6 +536,8 @@ def run_c47(ctx):
     ctx.assume("the name given to an automatic creation is not predicted: the specification demands freshness and the preface; "
                "TLC, the value parser, the adapter's mapping from dictionaries to namespaces are trusted")
     tot = done = edges = nsteps = 0
+    phases, perprofile = {}, {}
+    t0 = time.time()
     def model(p):
         maxmade, maxextra = ctx.pick(*p["made"]), ctx.pick(*p["extra"])
         dot = env.subdir("c47") + "/%s.dot" % p["name"]
@@ -525,6 +546,8 @@ def run_c47(ctx):
 
     with ThreadPoolExecutor(max_workers=4) as ex:
         ran = list(ex.map(model, PROFILES))
+    phases["tlc_graphs"] = round(time.time() - t0, 1)
+    t0 = time.time()
     for p, (dot, res) in zip(PROFILES, ran):
         label = p["name"]
         ctx.add_model(res, "Registry/" + label, {k: p[k] for k in ("classes", "H", "S", "T", "L", "F", "clears") if k in p})
@@ -542,30 +565,42 @@ def run_c47(ctx):
         tlc.require_coverage(res, need, "Registry/" + label)
         g = graph.load_dot(dot)
         uni = set(p.get("H", [])) | set(p.get("S", [])) | set(p.get("T", [])) | set(p.get("L", [])) | set(p.get("F", []))
-        n, total, cov, seen, divs = walk("C47", g, lambda init, uni=uni: RegAdapter(uni))
-        for d in divs:
+        w = walk("C47", g, lambda init, uni=uni: RegAdapter(uni))
+        for d in w["divs"]:
             d.extra["profile"] = label
-        ctx.diverge(divs)
-        tot += total
-        done += cov
-        edges += seen
-        nsteps += n
-        ctx.add_validated(cov, {"profile": label, "stimuli": total, "executed": cov, "outcome_edges_seen": seen, "of_edges": g.nedges})
+        ctx.diverge(w["divs"])
+        tot += w["stimuli_at_visited"]
+        done += w["stimuli_at_visited"] - w["left_at_visited"]
+        edges += w["edges_seen"]
+        nsteps += w["steps"]
+        info = {k: v for k, v in w.items() if k != "divs"}
+        info.update({"profile": label, "graph_states": len(g.states), "graph_edges": g.nedges})
+        ctx.add_validated(w["executed"], info)
+        perprofile[label] = info
         # vacuity: rejected duplicates and automatic names colliding with automatic-looking explicit names were met
         outcomes = {(act[0], g.states[v]["res"]["t"]) for u, es in g.out.items() for (lab, act, v) in es}
         if ("CreateExplicit", "err") not in outcomes or ("CreateAuto", "ok") not in outcomes:
             raise tlc.TlcError("vacuous graph %s" % label)
+        if not w["divs"] and w["executed"] < 0.5 * w["stimuli"]:
+            raise tlc.TlcError("walk of %s executed only %d of %d stimuli" % (label, w["executed"], w["stimuli"]))
+    phases["walk"] = round(time.time() - t0, 1)
     # binding B
     rng = random.Random(ctx.seed)
-    ntr = ctx.pick(150, 2000)
+    ntr = ctx.pick(160, 1000)
+    t0 = time.time()
     trs = [_random_history(rng, rng.randint(40, 120)) for _ in range(ntr)]
+    phases["histories"] = round(time.time() - t0, 1)
     for t in [t for t in trs if t[-1]["ev"] == "EXCEPTION"][:10]:
         e = t[-1]
         ctx.diverge(Divergence("C47", "exception", e["op"], e["where"], e["detail"], steps=t))
     trs = [t for t in trs if t[-1]["ev"] != "EXCEPTION"]
+    if not trs:
+        return
     allp = {"classes": list(KIND), "clears": list(KINDS), "clearall": True, "clones": True, "queries": True}
     cfg = cfg_text(allp, 100000, 0, spec="TraceSpec", closed=False) + "CONSTRAINT TraceOK\nCHECK_DEADLOCK FALSE\n"
-    out = trace.validate("RegistryTrace", cfg, SPEC_DIR, trs, batch=ctx.pick(40, 100))
+    t0 = time.time()
+    out = trace.validate("RegistryTrace", cfg, SPEC_DIR, trs, batch=ctx.pick(80, 125))
+    phases["validate"] = round(time.time() - t0, 1)
     ctx.states += out.states
     ctx.transitions += out.generated
     ctx.add_validated(len(out.accepted), {"history": [{k: v for k, v in e.items() if k != "names"} for e in trs[0][:10]]})
@@ -576,7 +611,7 @@ def run_c47(ctx):
             kinds[k] = kinds.get(k, 0) + 1
     for k in ("CreateExplicit/ok", "CreateExplicit/err", "CreateAuto/ok", "Clone/ok", "Clone/err", "SwitchHouse/done",
               "SwitchFramer/done", "Clear/cleared", "Read/-"):
-        if k not in kinds:
+        if k not in kinds and not ctx.divs:
             raise tlc.TlcError("vacuous random histories: no %s" % k)
     for i, pref in sorted(out.rejected.items())[:10]:
         ev = trs[i][pref] if 0 <= pref < len(trs[i]) else {}
@@ -589,7 +624,7 @@ def run_c47(ctx):
                                "invariant %s violated on a recorded history" % name, steps=trs[i]))
     ctx.exhaustive = (done == tot and tot > 0)
     nev = sum(len(t) - 1 for t in trs)
-    ctx.extra.update({"stimuli": tot, "stimuli_executed": done, "outcome_edges_seen": edges, "walk_steps": nsteps,
+    ctx.extra.update({"phase_seconds": phases, "profiles": perprofile, "stimuli_at_reached_states": tot, "stimuli_executed": done, "outcome_edges_seen": edges, "walk_steps": nsteps,
                       "random_histories": ntr, "random_histories_accepted": len(out.accepted), "random_events": nev,
                       "random_outcomes": kinds, "distinct_nontrivial": done + len(out.accepted), "evaluations": nsteps + nev})
 
